@@ -145,7 +145,17 @@ def build_script(beh, prefix, rng, sid):
             o["names"] = S.pref_names()
         ops.append(o)
         meta.append(("probe", None))
-    return {"id": sid, "ops": ops, "meta": meta}
+    # the preferences are read back before the first call and after every call of the behaviour (fingerprint over all names but
+    # NavMode, which navigation keeps up to date itself)
+    n_calls = len(pops) + len(beh)
+    ops2, meta2 = [{"op": "def_names", "names": [n for n in S.pref_names() if n != "NavMode"]}, {"op": "prefs_hash"}], [("aux", None), ("aux", None)]
+    for i, (o, m) in enumerate(zip(ops, meta)):
+        ops2.append(o)
+        meta2.append(m)
+        if i < n_calls:
+            ops2.append({"op": "prefs_hash"})
+            meta2.append(("aux", None))
+    return {"id": sid, "ops": ops2, "meta": meta2}
 
 
 API_NAME = {"set_rules_dir": "set_rules_dir", "set_mathml": "set_mathml", "set_pref": "set_preference", "get_pref": "get_preference", "speech": "get_spoken_text",
@@ -184,11 +194,14 @@ def run(tier):
         for n in names:
             for v in values:
                 for pf in PREFIXES:
-                    sc = build_script([], pf, rng, f"pref2:{n}={v}:{pf[0]}")
-                    at = len(pf[1])
-                    for _ in range(2):
-                        sc["ops"].insert(at, {"op": "set_pref", "name": n, "value": v})
-                        sc["meta"].insert(at, ("call", ("set_preference", cls)))
+                    # ... followed by the queries that fail or succeed depending on the state: none of them may leave a preference
+                    # changed behind (an override that is not undone on an error path shows only under a non-default value)
+                    tail = [("get_navigation_node_from_braille_position", "zero"), ("get_braille", "root"), ("do_navigate_command", "zoom"),
+                            ("get_braille_position", "-"), ("get_navigation_node_from_braille_position", "beyond"), ("get_spoken_text", "-")]
+                    sc = build_script([("set_preference", cls)] * 2 + tail, pf, rng, f"pref2:{n}={v}:{pf[0]}")
+                    for o in sc["ops"]:
+                        if o["op"] == "set_pref":
+                            o["name"], o["value"] = n, v
                     scripts.append(sc)
     # fresh reference sessions for the recovery probe under the default preferences
     scripts.append(build_script([], PREFIXES[0], rng, "fresh"))
@@ -203,6 +216,9 @@ def run(tier):
                 continue
             if op["op"] == "prefs_hash":
                 hash_now = rr["v"] if rr["r"] == "ok" else None
+                if m[0] == "aux" and events and events[-1].get("_open"):
+                    events[-1]["ha"] = hash_now or ""
+                    events[-1].pop("_open")
                 continue
             kind, call = m
             cls = call[1] if call else "-"
@@ -210,10 +226,15 @@ def run(tier):
                 cls = list(cls)
             if kind == "probe":
                 cls = {"set_rules_dir": "good", "set_mathml": "valid", "braille": "empty", "nav_cmd": "zoom"}.get(op["op"], "-")
-            events.append({"call": API_NAME[op["op"]], "cls": cls, "res": rr["r"], "ms": rr.get("ms", 0), "probe": 1 if kind == "probe" else 0})
+            events.append({"call": API_NAME[op["op"]], "cls": cls, "res": rr["r"], "ms": rr.get("ms", 0), "probe": 1 if kind == "probe" else 0,
+                           "hb": (hash_now or "") if kind != "probe" else "", "ha": "", "_open": kind != "probe"})
             back.append((si, oi))
             if kind == "probe" and op["op"] in ("speech", "braille", "overview") and hash_now:
                 memo.append((S.fp(hash_now, op["op"]), S.fp(rr["r"], S.norm_out(rr["v"]) if rr["r"] == "ok" else ""), si, oi))
+    for e in events:
+        e.pop("_open", None)
+        e.setdefault("hb", "")
+        e.setdefault("ha", "")
     rejects, drifts, _ = C.validate_trace("Trace_Api", "Trace_Api.cfg", events, wd, name="api", timeout=1800)
     memo.sort(key=lambda x: (x[0], 0 if scripts[x[2]]["id"] == "fresh" else 1, x[2], x[3]))
     mrej, _, _ = C.validate_trace("Trace_Memo", "Trace_Memo.cfg", [{"key": k, "out": o} for k, o, _, _ in memo], wd, name="memo", timeout=1200)
@@ -233,7 +254,8 @@ def run(tier):
         key, o, si, oi = memo[idx - 1]
         s = scripts[si]
         rr = results[si]["results"][oi]
-        calls = [o_ for o_ in s["ops"] if o_["op"] in API_NAME][: len(s["ops"]) - len(RECOVERY)]
+        api_ops = [o_ for o_ in s["ops"] if o_["op"] in API_NAME]
+        calls = api_ops[: len(api_ops) - sum(1 for o_ in RECOVERY if o_["op"] in API_NAME)]
         text = f"not-recovered: after {[API_NAME[c['op']] for c in calls][-4:]} a valid expression gives {str(S.norm_out(rr['v']))[:120]!r} for {s['ops'][oi]['op']} - a fresh session with the same preferences gives something else"
         verdict.reject(f"recovery|{s['ops'][oi]['op']}|{S.fp([c for c in calls])}", text, {"script": s["ops"][:oi + 1]}, text=text)
     for idx, reason in drifts[:200]:
@@ -283,9 +305,14 @@ def run(tier):
 def selftest(tier):
     wd = C.workdir("c08_self")
     ev = [{"call": "session", "cls": "-", "res": "ok", "ms": 0, "probe": 0}, {"call": "get_version", "cls": "-", "res": "ok", "ms": 1, "probe": 0},
+          {"call": "set_rules_dir", "cls": "good", "res": "ok", "ms": 1, "probe": 0},
+          {"call": "get_braille", "cls": "root", "res": "err", "ms": 1, "probe": 0, "hb": "h1", "ha": "h2"},
           {"call": "get_spoken_text", "cls": "-", "res": "panic", "ms": 1, "probe": 0}, {"call": "get_spoken_text", "cls": "-", "res": "err", "ms": 99999, "probe": 0}]
+    for e in ev:
+        e.setdefault("hb", "")
+        e.setdefault("ha", "")
     rej, _, _ = C.validate_trace("Trace_Api", "Trace_Api.cfg", ev, wd)
-    if [i for i, _ in rej] != [3, 4]:
+    if [i for i, _ in rej] != [4, 5, 6]:
         raise C.ToolError(f"selftest: {rej}")
     C.log("[C08] selftest ok")
     import sessionwalk
